@@ -437,6 +437,7 @@ func (b Builder) MakeMap(t Type, nReserve Expr) (ret Expr) {
 		nReserve = b.Prog.Val(0)
 	}
 	typ := b.abiType(t.raw.Type)
+	nReserve = b.fitSizeToInt(nReserve)
 	ret = b.InlineCall(b.Pkg.rtFunc("MakeMap"), typ, nReserve)
 	ret.Type = t
 	return
@@ -603,11 +604,26 @@ func (b Builder) Next(typ Type, iter Expr, isString bool) Expr {
 //		register
 //		Size Value // int; size of buffer; zero => synchronous.
 //	}
+// fitSizeToInt converts a size operand of any integer type to int (sign- or
+// zero-extending according to its own type).
+func (b Builder) fitSizeToInt(n Expr) Expr {
+	tint := b.Prog.Int()
+	if n.kind != vkSigned && n.kind != vkUnsigned {
+		return n
+	}
+	if b.Prog.SizeOf(n.Type) == b.Prog.SizeOf(tint) {
+		return n
+	}
+	return b.Convert(tint, n)
+}
+
 func (b Builder) MakeChan(t Type, size Expr) (ret Expr) {
 	dbgInstrf("MakeChan %v, %v\n", t.RawType(), size.impl)
 	prog := b.Prog
 	eltSize := prog.IntVal(prog.SizeOf(prog.Elem(t)), prog.Int())
 	ret.Type = t
+	// the size may have any integer type: widen it to the int NewChan takes
+	size = b.fitSizeToInt(size)
 	ret.impl = b.InlineCall(b.Pkg.rtFunc("NewChan"), eltSize, size).impl
 	return
 }
